@@ -113,6 +113,17 @@ Theorem C16_engine_unlocked_refuted : exists tr c,
               sh c <> fst (serial torn_progs ord ([false; false], [false; false])).
 Proof. exact engine_unlocked_refuted. Qed.
 
+(* Listed finding (tools/props/C16.known.json, proposed_fixes/C16-1-admin-status-lock.diff): the lock is per multiplexer.
+   RestServer.WithApiMux registers admin.Mux.StatusHandler on the API multiplexer too, so admin.Mux.Status is written
+   under two different mutexes (and by SetStatus on the main goroutine).  In the model: a thread that does not take THIS
+   mutex next to one that does -- the lost update again.  admin.Mux.Status is not engine resource state (the property's
+   anchors are Mux.model / modelSolution / Attribs), so the engine theorems above are unaffected; translator fact
+   Facts16.cross_mux_registrations names the registration. *)
+Theorem C16_two_mutexes_refuted : exists tr c,
+  exec two_mutex_cfg tr c /\ all_done c = true /\
+  forall ord, Permutation ord [0; 1] -> sh c <> fst (serial [rmw_prog; rmw_prog] ord 0).
+Proof. exact two_mutexes_refuted. Qed.
+
 (* why the Unlock has to be deferred: a panicking handler would otherwise wedge every later request *)
 Theorem C16_nondeferred_can_wedge : exists (progs : list (prog nat nat)) s0 tr c,
   exec (init false progs s0) tr c /\ all_done c = false /\ forall e c', ~ step c e c'.
@@ -179,4 +190,5 @@ Print Assumptions C16_engine_no_deadlock_partial.
 Print Assumptions C16_unlocked_refuted.
 Print Assumptions C16_facts_unlocked_refuted.
 Print Assumptions C16_engine_unlocked_refuted.
+Print Assumptions C16_two_mutexes_refuted.
 Print Assumptions C16_nondeferred_can_wedge.
